@@ -971,6 +971,28 @@ def product_stats(ctx, st, quick):
     ctx.count('value_mc:exotics', n_eval, n_eval, sample={'fn': 'EquityBarrierOption.value_mc', 'seeds_per_case': M, 'reference_paths': NREF})
 
 
+CORPUS_CIR_KJ = dict(a=0.8635, b=0.05587, sigma=0.5327, r0=0.06107, dt=0.01, t=2.0, num_paths=2000,
+                     seeds=[1922468025, 1710110584, 1196583836, 1027259137] + [1, 2, 3, 4, 5, 6, 7, 8, 9, 11, 12, 14, 15, 16, 17, 18, 19, 20, 22, 25],
+                     exploding_seeds=[21, 23, 26])     # typical seeds: ~0.880 each (analytic 0.8958); exploding: 5.87, 8.76, 1.22
+
+
+def kj_floor_classifier(CIR, scheme, d, r0, a, b, sg, t, dt, case):
+    """classifier of C19/cir-kahl-jackel-floor-amplification: scheme KAHLJACKEL, d = 4ab/sigma^2 < 1 (b_hat = b - sigma^2/(4a) < 0), AND the
+    mechanism is observed on the real code for these very parameters: single KAHLJACKEL paths (rate_path_mc) leave the CIR state space by
+    more than the noise the diffusion itself could ever produce (r < -1e-3; the exact process is >= 0), with the per-draw noise at the floor
+    predicted by theorem cirKJ_floor_amplification, kappa*|b_hat|*sigma*dt^1.5/(4e-4), at least 1e-3.  Anything else stays a VIOLATION."""
+    if scheme != 4 or not d < 1.0:
+        return None
+    bhat = b - sg * sg / 4.0 / a
+    predicted = a * abs(bhat) * sg * dt ** 1.5 / 4e-4
+    worst = 0.0
+    for sd in range(1, 21):
+        pth = CIR.rate_path_mc(r0, a, b, sg, t, dt, sd, 4)
+        worst = min(worst, float(np.nanmin(pth)))
+    case['kj_floor'] = dict(b_hat=bhat, predicted_noise_per_draw_at_floor=predicted, most_negative_rate_in_20_paths=worst)
+    return 'C19/cir-kahl-jackel-floor-amplification' if (predicted >= 1e-3 and worst < -1e-3) else None
+
+
 _cir_sampler = None
 
 
@@ -1023,6 +1045,25 @@ def rates_stats(ctx, st, quick):
             sq = (rT[:npth] - mref) ** 2
             st.ztest(f'vasicek.paths.var.{scheme}', 'get_vasicek_paths: terminal variance differs from the analytic variance', sq, vref, cs,
                      bias=3.0 * a / nas * vref, clause='variance')
+        # ---- corpus: witness of C19/cir-kahl-jackel-floor-amplification (found by the sweep at VERIF_SEED=8), run on every run
+        if _ == 0:
+            w = CORPUS_CIR_KJ
+            ns_ = int(w['t'] / w['dt'])
+            ref_w = float(CIR.zero_price(w['r0'], w['a'], w['b'], w['sigma'], (ns_ - 1) * w['dt'])) * math.exp(-0.5 * w['r0'] * w['dt'])
+            vals_w = [float(CIR.zero_price_mc(w['r0'], w['a'], w['b'], w['sigma'], w['t'], w['dt'], w['num_paths'], sd, 4)) for sd in w['seeds']]
+            n_eval += len(vals_w)
+            dw = 4 * w['a'] * w['b'] / w['sigma'] ** 2
+            cs_w = dict(w, fn='cir_montecarlo.zero_price_mc', scheme=4, d=dw, corpus=True, analytic_for_integrated_horizon=ref_w)
+            fid_w = kj_floor_classifier(CIR, 4, dw, w['r0'], w['a'], w['b'], w['sigma'], w['t'], w['dt'], cs_w)
+            for sd in w['exploding_seeds']:
+                vx = float(CIR.zero_price_mc(w['r0'], w['a'], w['b'], w['sigma'], w['t'], w['dt'], w['num_paths'], sd, 4))
+                n_eval += 1
+                if not (math.isfinite(vx) and vx <= 1.0):
+                    ctx.violation('cir_montecarlo.zero_price_mc returns a zero-coupon price above 1 (or non-finite) in a model with non-negative rates',
+                                  dict(cs_w, seed=sd, returned=vx), finding=fid_w, clause='zero-price')
+            st.ttest('cir.zero_price_mc.4.corpus', 'cir_montecarlo.zero_price_mc: mean over seeds is not within bound of the analytic zero price', vals_w, ref_w, cs_w,
+                     bias=(0.3 * w['dt'] * max(w['r0'], w['b']) + 6e-3) * ref_w, clause='zero-price',
+                     finding=fid_w)
         # ---- CIR zero price: every scheme enum x parameter sets on both sides of d = 4ab/sigma^2 = 1 (and d = 1 exactly: the
         # EXACT scheme switches between normal+chi-square(d-1) and the Poisson mixture there).  Reference = analytic zero price of
         # the horizon the routine integrates (it starts rsum at r0 and adds n-1 trapezoids: (n-1)*dt plus half a step at r0).
@@ -1049,9 +1090,16 @@ def rates_stats(ctx, st, quick):
                 bias = 0.3 * dt * max(r0, b) * ref
                 if dpar <= 1.0 + 1e-12 and sc != 5:
                     bias += (6e-3 if sc == 4 else 1e-3) * ref
-                st.ttest(f'cir.zero_price_mc.{sc}.{regime}', 'cir_montecarlo.zero_price_mc: mean over seeds is not within bound of the analytic zero price', vals, ref,
-                         dict(fn='cir_montecarlo.zero_price_mc', r0=r0, a=a, b=b, sigma=sg, t=t, dt=dt, num_paths=npth, scheme=sc, seeds=sds[:4], d=dpar,
-                              analytic_zero_price_t=float(CIR.zero_price(r0, a, b, sg, t)), analytic_for_integrated_horizon=ref), bias=bias, clause='zero-price')
+                cs_ = dict(fn='cir_montecarlo.zero_price_mc', r0=r0, a=a, b=b, sigma=sg, t=t, dt=dt, num_paths=npth, scheme=sc, seeds=sds[:4], d=dpar,
+                           analytic_zero_price_t=float(CIR.zero_price(r0, a, b, sg, t)), analytic_for_integrated_horizon=ref)
+                fid = kj_floor_classifier(CIR, sc, dpar, r0, a, b, sg, t, dt, cs_)
+                badv = [(sd_, x_) for sd_, x_ in zip(sds, vals) if not (math.isfinite(x_) and x_ <= 1.0)]
+                if badv:
+                    ctx.violation('cir_montecarlo.zero_price_mc returns a zero-coupon price above 1 (or non-finite) in a model with non-negative rates',
+                                  dict(cs_, seed=badv[0][0], returned=badv[0][1], count=len(badv)), finding=fid, clause='zero-price')
+                st.ttest(f'cir.zero_price_mc.{sc}.{regime}' + ('.kj-floor' if fid else ''),
+                         'cir_montecarlo.zero_price_mc: mean over seeds is not within bound of the analytic zero price', vals, ref, cs_, bias=bias,
+                         clause='zero-price', finding=fid)
         # ---- CIR exact transition `draw`: conditional mean and variance are exact for every dt (both branches, d = 1 exactly)
         sampler = cir_draw_sampler(CIR)
         for regime in ('d>1', 'd=1', 'd<1', 'd>1 (a=0.5,b=0.05,sigma=0.1)'):
@@ -1320,7 +1368,7 @@ def lmm_stats(ctx, st, quick):
                 var = sum(varfn(j, i) * taus[i] for i in range(j))
                 ref = black_caplet(float(fwd0[j]), K, var, float(taus[j]), float(P0[j]))
                 st.ztest(f'lmm.caplet.{name}', f'{name}: caplet priced on the simulated forwards differs from Black (loose)', smp, ref,
-                         dict(cs, caplet_index=j, strike=K, black=ref), bias=0.02 * ref, clause='caplet-vs-black')
+                         dict(cs, caplet_index=j, strike=K, black=ref), bias=0.02 * ref, clause='caplet-vs-black', min_nonzero=200)
         # the library's own pricers on these paths
         if not sobol and varfn is not None:
             for a_ in (1, 3):
@@ -1396,9 +1444,9 @@ def lmm_stats(ctx, st, quick):
             reff = refc - float(P0[j] * taus[j] * (fwd0[j] - K))
             bias_c, bias_f = 0.02 * refc, 0.02 * reff
         st.ttest('lmm.cap_flr_pricer.cap', 'lmm_cap_flr_pricer: caplet mean over seeds is not within bound of Black', caps[:, j], refc, dict(cs, is_cap=1, black=refc),
-                 bias=bias_c, clause='caplet-vs-black')
+                 bias=bias_c, clause='caplet-vs-black', rare_if_mostly_zero=(j > 0))
         st.ttest('lmm.cap_flr_pricer.floor', 'lmm_cap_flr_pricer: floorlet mean over seeds is not within bound of Black', flrs[:, j], reff, dict(cs, is_cap=0, black=reff),
-                 bias=bias_f, clause='caplet-vs-black')
+                 bias=bias_f, clause='caplet-vs-black', rare_if_mostly_zero=(j > 0))
     # ---- IborLMMProducts: its own simulators, and value_cap_floor on paths installed by hand
     lmm_product(ctx, rng, L)
     ctx.count('lmm', n_eval, n_eval, sample={'fn': 'lmm_simulate_fwds_1f', 'num_fwds': n, 'num_paths': npth})
